@@ -17,11 +17,11 @@ namespace Fv.Chan
 inductive Form where
   | send | trySend | sendBatch | trySendBatch | sendBatchMut | trySendBatchMut
   | recv | tryRecv | recvTimeout0 | recvBatch | tryRecvBatch | recvBatchMut | tryRecvBatchMut
-  deriving DecidableEq, Repr, Inhabited
+  deriving DecidableEq, Repr, Inhabited, Hashable
 
 inductive Probe where
   | len | isEmpty | isFull | capacity | isClosed | senderCount | isSent
-  deriving DecidableEq, Repr, Inhabited
+  deriving DecidableEq, Repr, Inhabited, Hashable
 
 inductive Op where
   | snd (f : Form) (h : HName) (vs : List Val)
@@ -32,16 +32,16 @@ inductive Op where
   | probe (p : Probe) (h : HName)
   | toAsync (h : HName)
   | toSync (h : HName)
-  deriving DecidableEq, Repr, Inhabited
+  deriving DecidableEq, Repr, Inhabited, Hashable
 
 inductive Tag where
   | ok | full | closed | sentAlready | empty | disconnected | timeout | closeErr
   | blocks | unsupported | noHandle | nameExists
-  deriving DecidableEq, Repr, Inhabited
+  deriving DecidableEq, Repr, Inhabited, Hashable
 
 inductive PVal where
   | none | n (k : Nat) | b (x : Bool) | capOpt (o : Option Nat)
-  deriving DecidableEq, Repr, Inhabited
+  deriving DecidableEq, Repr, Inhabited, Hashable
 
 /-- structured result; the driver renders it per form (`err:full:5`, `n:2:left=[3]`, …) -/
 structure Out where
@@ -51,7 +51,7 @@ structure Out where
   lost : List Val := []   -- dropped by a failing `send` (its error type carries no value)
   got : List Val := []    -- received
   val : PVal := .none     -- probes
-  deriving DecidableEq, Repr, Inhabited
+  deriving DecidableEq, Repr, Inhabited, Hashable
 
 instance : BEq Out := ⟨fun a b => decide (a = b)⟩
 
@@ -74,7 +74,7 @@ inductive P where
   | rvTo (t : Nat) (stage : Nat)              -- timed rendezvous receive: 1 = registered, 2 = CAS WAITING→CANCELLED done, not yet unlinked
   | osRecv (t : Nat) (h : HName)              -- oneshot `recv` future pending
   | fin (out : Out)
-  deriving Repr, Inhabited
+  deriving DecidableEq, Repr, Inhabited, Hashable
 
 def P.out? : P → Option Out
   | .fin o => some o
@@ -95,16 +95,12 @@ def Form.blocking : Form → Bool
   | _ => false
 
 /-- Does this call site test the handle's own `closed` flag?  (`false` = finding F3.)
-* spsc `BoundedSyncSender::send_batch` — bounded_sync.rs:182-226 (only `consumer_dropped`)
-* mpsc v3 `Receiver::recv_timeout` — bounded_v3/consumer.rs:130-185
-* mpmc `Receiver::recv_timeout` — mpmc_v2/mod.rs:515
 * mpmc async futures never read `closed` — async_impl.rs (send, send_batch, send_batch_mut, recv, recv_batch, recv_batch_mut)
-* rendezvous async `send` / `recv` — {spsc,mpsc,mpmc_v2}/rendezvous.rs -/
+* rendezvous async `send` / `recv` — {spsc,mpsc,mpmc_v2}/rendezvous.rs
+(The three sync sites of F3 — spsc `send_batch`, mpsc v3 and mpmc `recv_timeout` — were repaired in
+/repo by a `fix:` commit and are ordinary checked sites here.) -/
 def checksOwn (fam : Fam) (isAsync : Bool) (f : Form) : Bool :=
   match fam, isAsync, f with
-  | .sb, false, .sendBatch => false
-  | .mb, false, .recvTimeout0 => false
-  | .pb, false, .recvTimeout0 => false
   | .pb, true, .send | .pb, true, .sendBatch | .pb, true, .sendBatchMut => false
   | .pb, true, .recv | .pb, true, .recvBatch | .pb, true, .recvBatchMut => false
   | .rv, true, .send | .rv, true, .recv => false
@@ -121,7 +117,7 @@ def sendPrelude (fam : Fam) (isAsync : Bool) (f : Form) : List Chk :=
   if !f.isBatch then (if checksOwn fam isAsync f then [.O, .G] else [.G])
   else
     match fam, isAsync, f with
-    | .sb, false, .sendBatch => [.G, .E]          -- bounded_sync.rs:189 before :199; no own check
+    | .sb, false, .sendBatch => [.O, .G, .E]      -- bounded_sync.rs: own flag, then consumer_dropped (loop top) before the `sent == total` test
     | .pb, false, .sendBatch => [.O, .E, .G]      -- mpmc_v2/mod.rs:289 before sync_impl.rs:208
     | _, _, _ => if checksOwn fam isAsync f then [.E, .O, .G] else [.E, .G]
 
